@@ -205,6 +205,10 @@ func (m *Monitor) c05(op Op, ok bool, prev, cur Snap) {
 				m.fail("C05:fee-other-balance", "fee increase changed balance %v", k)
 			}
 		}
+		// the fee is raised in the transfer's own token: what the payer gives up is what the recorded fee grows by
+		if p, had := ptxs[op.ID]; had && p.Token != op.Token {
+			m.fail("C05:fee-in-other-token", "fee of transfer %d (token %d) raised by %d paid in a denomination of token %d", op.ID, p.Token, op.Add, op.Token)
+		}
 		if _, had := ptxs[op.ID]; !had || ppl[op.ID][0] != "pool" {
 			m.fail("C05:fee-on-non-pool", "fee increase accepted for transfer %d which is not in the pool", op.ID)
 		}
